@@ -47,7 +47,7 @@ theorem good_child {root cs : List Name} {par : RPath} {fs : FS} {b : Name} (hpa
     obtain ⟨R', hR'⟩ := proper_prefix_of_snoc e hR
     exact hd Q R' hR'.symm hQ
 
-theorem allDirs_of_creates {fs fs' : FS} {par : RPath} {b : Name} {a m : Option Nat}
+theorem allDirs_of_creates {fs fs' : FS} {par : RPath} {b : Name} {a : Attr} {m : Option Nat}
     (hd : AllDirs fs par) (hc : Creates fs fs' (par ++ [b]) (.dir a m)) : AllDirs fs' (par ++ [b]) := by
   intro Q R e hQ
   rw [hc Q]
@@ -116,34 +116,34 @@ theorem applyAll_single (o : Opts) (root : List Name) {s s' : LState} {n : Node}
 theorem apply_leaf (o : Opts) (root : List Name) (hrv : ∀ c ∈ root, validName c = true)
     (hrs : Short root) (f : FileRec) (d : Bytes) (cs : List Name) (par : RPath) (p : Bytes)
     (s : LState) (hrep : Rep d cs) (hpar : par = root ++ cs) (hcs : Short cs) (hwf : LeafWF p f)
-    (hlen : f.base.length ≤ 255) (hd : AllDirs s.fs par)
+    (hfit : XattrsFit o f) (hlen : f.base.length ≤ 255) (hd : AllDirs s.fs par)
     (hfresh : s.fs.get (par ++ [f.base]) = none)
     (htimes : ∀ e ∈ s.dirTimes, ¬ par ++ [f.base] <+: e.1) :
     ∃ s', applyNode o root s (leafNodeAt d f) = .ok s' ∧
       Creates s.fs s'.fs (par ++ [f.base]) (objOf o f) ∧ s'.dirTimes = s.dirTimes := by
-  obtain ⟨hkind, _, hname, _⟩ := hwf
+  obtain ⟨hkind, _, hname, _, _, _, _, hxnd⟩ := hwf
   have hG : Good s.fs (par ++ [f.base]) := good_child hpar hrv hrs hrep.1 hcs hname hlen hd
   have hdst : dstOf root (joinPath d f.base) = par ++ [f.base] := by
     rw [dstOf_eq, rep_pathOf (rep_join hrep hname), hpar, List.append_assoc]
   rcases hkind with hk | hk | hk
   · obtain ⟨s', h1, h2, h3⟩ := createFile_fresh o root s (joinPath d f.base) (metaOf f) f.data
-      (hdst ▸ hG) (hdst ▸ hfresh) (hdst ▸ htimes)
+      (hdst ▸ hG) (hdst ▸ hfresh) (hdst ▸ htimes) hxnd
     rw [hdst] at h2
     refine ⟨s', ?_, ?_, h3⟩
     · simpa [leafNodeAt, hk, applyNode, metaOf] using h1
-    · simpa [objOf, hk, stampOf_eq, mtimeOf_eq] using h2
+    · simpa [objOf, hk, attrOfRec_eq, mtimeOf_eq] using h2
   · obtain ⟨s', h1, h2, h3⟩ := createSymlink_fresh o root s (joinPath d f.base) (metaOf f) f.target
-      (hdst ▸ hG) (hdst ▸ hfresh)
+      (hdst ▸ hG) (hdst ▸ hfresh) hxnd (fun hO => hfit hO (.inl hk))
     rw [hdst] at h2
     refine ⟨s', ?_, ?_, h3⟩
     · simpa [leafNodeAt, hk, applyNode, metaOf] using h1
-    · simpa [objOf, hk, linkStampOf_eq] using h2
+    · simpa [objOf, hk, linkAttrOfRec_eq] using h2
   · obtain ⟨s', h1, h2, h3⟩ := createDevice_fresh o root s (joinPath d f.base) (metaOf f)
-      f.major.toNat f.minor.toNat (hdst ▸ hG) (hdst ▸ hfresh)
+      f.major.toNat f.minor.toNat (hdst ▸ hG) (hdst ▸ hfresh) hxnd (fun hO => hfit hO (.inr hk))
     rw [hdst] at h2
     refine ⟨s', ?_, ?_, h3⟩
     · simpa [leafNodeAt, hk, applyNode, metaOf] using h1
-    · simpa [objOf, hk, stampOf_eq, mtimeOf_eq] using h2
+    · simpa [objOf, hk, attrOfRec_eq, mtimeOf_eq] using h2
 
 /-! ### trees -/
 
@@ -153,29 +153,29 @@ theorem apply_tree (o : Opts) (root : List Name) (hrv : ∀ c ∈ root, validNam
     (hrs : Short root) :
     (t : Tree) → ∀ (d : Bytes) (cs : List Name) (par : RPath) (p : Bytes) (anc : List Bytes)
       (s : LState), Rep d cs → par = root ++ cs → Short cs → t.WF p anc → t.Names →
-      t.hd.base.length ≤ 255 → AllDirs s.fs par →
+      (∀ f ∈ t.records, XattrsFit o f) → t.hd.base.length ≤ 255 → AllDirs s.fs par →
       (∀ q, par ++ [t.hd.base] <+: q → s.fs.get q = none) →
       (∀ e ∈ s.dirTimes, ¬ par ++ [t.hd.base] <+: e.1) → TimesGood s.fs s.dirTimes →
       ∃ s', applyAll o root s (t.nodes d) = .ok s' ∧
         (∀ q, s'.fs.get q = ((t.lay false o (par ++ [t.hd.base])).lookup q).or
           (if q = par then touchObj (s.fs.get q) else s.fs.get q)) ∧
         s'.dirTimes = s.dirTimes ++ t.times (par ++ [t.hd.base]) ∧ TimesGood s'.fs s'.dirTimes
-  | .leaf f, d, cs, par, p, anc, s, hrep, hpar, hcs, hwf, _, hlen, hd, hfresh, htimes, htg => by
+  | .leaf f, d, cs, par, p, anc, s, hrep, hpar, hcs, hwf, _, hfit, hlen, hd, hfresh, htimes, htg => by
     simp only [Tree.WF] at hwf
     simp only [Tree.hd] at hfresh htimes hlen ⊢
     have hn := hfresh _ (List.prefix_refl _)
-    obtain ⟨s', h1, h2, h3⟩ := apply_leaf o root hrv hrs f d cs par p s hrep hpar hcs hwf hlen hd
-      hn htimes
+    obtain ⟨s', h1, h2, h3⟩ := apply_leaf o root hrv hrs f d cs par p s hrep hpar hcs hwf
+      (hfit f (by simp [Tree.records])) hlen hd hn htimes
     refine ⟨s', by simpa [Tree.nodes] using applyAll_single o root h1, ?_, ?_, ?_⟩
     · intro q
       simpa [Tree.lay] using creates_post h2 q
     · simp [Tree.times, h3]
     · rw [h3]; exact htg.creates hn h2
-  | .dir f gcs, d, cs, par, p, anc, s, hrep, hpar, hcs, hwf, hnm, hlen, hd, hfresh, htimes, htg => by
+  | .dir f gcs, d, cs, par, p, anc, s, hrep, hpar, hcs, hwf, hnm, hfit, hlen, hd, hfresh, htimes, htg => by
     simp only [Tree.WF] at hwf
     simp only [Tree.Names] at hnm
     simp only [Tree.hd] at hfresh htimes hlen ⊢
-    obtain ⟨_, _, _, hname, _, _, _, hgcs⟩ := hwf
+    obtain ⟨_, _, _, hname, _, hxok, _, hgcs⟩ := hwf
     obtain ⟨hnd, hnms⟩ := hnm
     have hn := hfresh _ (List.prefix_refl _)
     have hG : Good s.fs (par ++ [f.base]) := good_child hpar hrv hrs hrep.1 hcs hname hlen hd
@@ -183,7 +183,7 @@ theorem apply_tree (o : Opts) (root : List Name) (hrv : ∀ c ∈ root, validNam
     have hdst : dstOf root (joinPath d f.base) = par ++ [f.base] := by
       rw [dstOf_eq, rep_pathOf hrep', hpar, List.append_assoc]
     obtain ⟨s1, h1, hc, ht1⟩ := createDir_fresh o root s (joinPath d f.base) (metaOf f)
-      (hdst ▸ hG) (hdst ▸ hfresh _ (List.prefix_refl _))
+      (hdst ▸ hG) (hdst ▸ hfresh _ (List.prefix_refl _)) hxok.2
     rw [hdst] at hc ht1
     have hcs' : Short (cs ++ [f.base]) := by
       intro c hc
@@ -204,7 +204,7 @@ theorem apply_tree (o : Opts) (root : List Name) (hrv : ∀ c ∈ root, validNam
           exact ⟨hG.normal, hG.short, hG.ne, hAD⟩
     obtain ⟨s2, h2, g2, t2, htg2⟩ := apply_list o root hrv hrs gcs (joinPath d f.base) (cs ++ [f.base])
       (par ++ [f.base]) f.path (f.path :: anc) s1 hrep' (by rw [hpar, List.append_assoc]) hcs' hgcs
-      hnms hnd hAD
+      hnms (fun g hg => hfit g (by simp [Tree.records, hg])) hnd hAD
       (by
         intro t _ q hq
         have hq' : par ++ [f.base] <+: q := (List.prefix_append _ _).trans hq
@@ -233,8 +233,8 @@ theorem apply_tree (o : Opts) (root : List Name) (hrv : ∀ c ∈ root, validNam
           Tree.layList_lookup_none (no_region_self gcs _)
         rw [hB, hc.get_self]
         cases gcs with
-        | nil => simp [Tree.lay, Tree.layList, mtimeOf_eq, stampOf_eq]
-        | cons g gs => simp [Tree.lay, touchObj, stampOf_eq]
+        | nil => simp [Tree.lay, Tree.layList, mtimeOf_eq, attrOfRec_eq]
+        | cons g gs => simp [Tree.lay, touchObj, attrOfRec_eq]
       · have hb : (q == par ++ [f.base]) = false := by simpa using hq
         rw [hc q, List.dropLast_concat]
         simp only [hq, false_and, if_false, Tree.lay, List.lookup_cons, hb]
@@ -247,27 +247,29 @@ theorem apply_list (o : Opts) (root : List Name) (hrv : ∀ c ∈ root, validNam
     (hrs : Short root) :
     (ts : List Tree) → ∀ (d : Bytes) (cs : List Name) (par : RPath) (p : Bytes) (anc : List Bytes)
       (s : LState), Rep d cs → par = root ++ cs → Short cs → Tree.WFList p anc ts →
-      Tree.NamesList ts → (ts.map fun c => c.hd.base).Nodup → AllDirs s.fs par →
+      Tree.NamesList ts → (∀ f ∈ Tree.recordsList ts, XattrsFit o f) →
+      (ts.map fun c => c.hd.base).Nodup → AllDirs s.fs par →
       (∀ t ∈ ts, ∀ q, par ++ [t.hd.base] <+: q → s.fs.get q = none) →
       (∀ t ∈ ts, ∀ e ∈ s.dirTimes, ¬ par ++ [t.hd.base] <+: e.1) → TimesGood s.fs s.dirTimes →
       ∃ s', applyAll o root s (Tree.nodesList d ts) = .ok s' ∧
         (∀ q, s'.fs.get q = ((Tree.layList false o par ts).lookup q).or
           (if q = par ∧ ts ≠ [] then touchObj (s.fs.get q) else s.fs.get q)) ∧
         s'.dirTimes = s.dirTimes ++ Tree.timesList par ts ∧ TimesGood s'.fs s'.dirTimes
-  | [], d, cs, par, p, anc, s, _, _, _, _, _, _, _, _, _, htg =>
+  | [], d, cs, par, p, anc, s, _, _, _, _, _, _, _, _, _, _, htg =>
     ⟨s, by simp [Tree.nodesList, applyAll], by simp [Tree.layList], by simp [Tree.timesList], htg⟩
-  | t :: ts, d, cs, par, p, anc, s, hrep, hpar, hcs, hwf, hnm, hnd, hd, hfresh, htimes, htg => by
+  | t :: ts, d, cs, par, p, anc, s, hrep, hpar, hcs, hwf, hnm, hfit, hnd, hd, hfresh, htimes, htg => by
     simp only [Tree.WFList] at hwf
     simp only [Tree.NamesList] at hnm
     have hnd' : (ts.map fun c => c.hd.base).Nodup := by
       simp only [List.map_cons, List.nodup_cons] at hnd; exact hnd.2
     obtain ⟨s1, h1, g1, t1, htg1⟩ := apply_tree o root hrv hrs t d cs par p anc s hrep hpar hcs hwf.1
-      hnm.2.1 hnm.1 hd (hfresh t (by simp)) (htimes t (by simp)) htg
+      hnm.2.1 (fun g hg => hfit g (by simp [Tree.recordsList, hg])) hnm.1 hd (hfresh t (by simp))
+      (htimes t (by simp)) htg
     have hsep : ∀ t' ∈ ts, ∀ q, par ++ [t'.hd.base] <+: q → ¬ par ++ [t.hd.base] <+: q := by
       intro t' ht' q hq hq'
       exact other_regions hnd hq' t' ht' hq
     obtain ⟨s2, h2, g2, t2, htg2⟩ := apply_list o root hrv hrs ts d cs par p anc s1 hrep hpar hcs hwf.2
-      hnm.2.2 hnd'
+      hnm.2.2 (fun g hg => hfit g (by simp [Tree.recordsList, hg])) hnd'
       (by
         intro Q R e hQ
         have hnr : ¬ par ++ [t.hd.base] <+: Q := by
